@@ -97,6 +97,11 @@ def run_check(prop, rules, tier, model, repo, explanation, assumptions, seed=0, 
             except AnalysisError as e:
                 # the other rules still run: when they report violations those are the informative result
                 deferred.append(e)
+            except Exception:
+                # same for a rule that trips over a construct it does not know: never a pass (exit 2 unless an
+                # unlisted violation is reported as well)
+                deferred.append(AnalysisError('internal exception in rule %s\n%s' % (
+                    getattr(rule, '__name__', '?'), traceback.format_exc())))
         counts = {}
         for o in chk.obligations:
             counts[o.rule] = counts.get(o.rule, 0) + 1
